@@ -149,6 +149,19 @@ Proof.
   - rewrite Hsq. apply chk_y2_curve.
 Qed.
 
+(* the negation of a root is a root, and it is in range because no root is 0 *)
+Lemma neg_root_on_curve : prime p -> forall x r,
+  0 <= x < p -> 0 <= r < p -> (r * r) mod p = (x * x * x + 7) mod p -> on_curve (Some (x, p - r)) = true.
+Proof.
+  intros Hp x r Hx Hr Heq.
+  assert (Hr0 : r <> 0).
+  { intros E0. subst r. rewrite Z.mul_0_l in Heq. rewrite Z.mod_0_l in Heq by (pose proof p_pos; lia).
+    symmetry in Heq. exact (y2_nonzero Hp _ Heq). }
+  apply on_curve_intro; [exact Hx | lia |].
+  rewrite <- Heq. replace ((p - r) * (p - r)) with (r * r + (p - 2 * r) * p) by ring.
+  apply Z_mod_plus_full.
+Qed.
+
 (* the point reported by public_point() for a key that passed the check *)
 Theorem pub_valid_point_on_curve_pf : prime secp256k1_p ->
   forall k, lib_pub_invalid k = false -> on_curve (Some (lib_public_point k)) = true.
@@ -161,12 +174,7 @@ Proof.
     rewrite chk_y2_eq, lib_mod_sqrt_mod in Hc.
     destruct (decompress_y_cases (first_is (k_pubc k) 3) (chk_x k)) as [[E _]|[E _]]; rewrite E; [exact Hc|].
     apply on_curve_inv in Hc. destruct Hc as [Hx [Hr Heq]].
-    set (r := lib_mod_sqrt (lib_ys (chk_x k))) in *.
-    assert (Hr0 : r <> 0).
-    { intros E0. rewrite E0 in Heq. cbn in Heq. symmetry in Heq. exact (y2_nonzero Hp _ Heq). }
-    apply on_curve_intro; [exact Hx | lia |].
-    rewrite <- Heq. replace ((p - r) * (p - r)) with (r * r + (p - 2 * r) * p) by ring.
-    apply Z_mod_plus_full.
+    apply neg_root_on_curve; assumption.
 Qed.
 
 (* ---------------------------------------------------------------- Key.__init__ *)
@@ -285,7 +293,7 @@ Theorem compressed_accepted_pf : prime secp256k1_p -> forall x y c,
             lib_public_uncompressed k = ser_point_uncompressed (Some (x, y)).
 Proof.
   intros Hp x y c Hc. pose proof (on_curve_inv x y Hc) as [Hx [Hy Heq]].
-  assert (H256 : p < 256 ^ Z.of_nat 32) by reflexivity.
+  assert (H256 : p < 256 ^ Z.of_nat 32) by (vm_compute; reflexivity).
   set (pfx := if Z.odd y then x03 else x02).
   assert (Hser : ser_point_compressed (Some (x, y)) = pfx :: be_bytes 32 x) by reflexivity.
   assert (Hxb : firstn 32 (skipn 1 (pfx :: be_bytes 32 x)) = be_bytes 32 x).
@@ -306,13 +314,15 @@ Proof.
     rewrite E2, lib_mod_sqrt_mod.
     set (r := lib_mod_sqrt (lib_ys x)).
     pose proof (lib_mod_sqrt_range (lib_ys x)) as Hr. fold r in Hr.
+    pose proof (decompress_y_cases (Z.odd y) x) as Hcases. cbv zeta in Hcases. fold r in Hcases.
+    rewrite Hdec in Hcases. clearbody r.
     assert (Hrr : (r * r) mod p = lib_ys x mod p).
     { rewrite lib_ys_mod, <- Heq.
-      destruct (decompress_y_cases (Z.odd y) x) as [[E _]|[E _]]; fold r in E; rewrite Hdec in E.
+      destruct Hcases as [[E _]|[E _]].
       - rewrite <- E. reflexivity.
       - replace r with (p - y) by lia. replace ((p - y) * (p - y)) with (y * y + (p - 2 * y) * p) by ring.
         apply Z_mod_plus_full. }
-    rewrite powmod_spec by (reflexivity || discriminate). replace (r ^ 2) with (r * r) by ring.
+    rewrite powmod_spec by (reflexivity || discriminate). rewrite Z.pow_2_r.
     rewrite Hrr, Z.eqb_refl. cbn [negb orb].
     destruct (p <=? x) eqn:E3; [apply Z.leb_le in E3; lia|].
     destruct (p <=? r) eqn:E4; [apply Z.leb_le in E4; lia|]. reflexivity. }
@@ -321,9 +331,16 @@ Proof.
     cbn [Nat.eqb andb orb]. rewrite Hpf. cbn [andb orb].
     unfold lib_import_public. cbn [length]. rewrite be_bytes_length. cbn [Nat.eqb]. rewrite Hxb.
     fold k0. unfold lib_finish_public. rewrite Hvalid. reflexivity.
-  - unfold lib_public_point, lib_x, lib_y. cbn [k0 k_xb k_yb k_pubc]. rewrite Hofbe, Hsign, Hdec. reflexivity.
+  - unfold lib_public_point, lib_y, lib_x. cbn [k0 k_xb k_yb k_pubc]. rewrite Hofbe, Hsign, Hdec. reflexivity.
   - reflexivity.
   - unfold lib_public_uncompressed, lib_x. cbn [k0 k_pubu k_xb k_pubc]. rewrite Hofbe, Hsign, Hdec. reflexivity.
+Qed.
+
+Lemma split_32 (a b : bytes) : length a = 32%nat -> firstn 32 (a ++ b) = a /\ skipn 32 (a ++ b) = b.
+Proof.
+  intros H. rewrite <- H. split.
+  - rewrite firstn_app, Nat.sub_diag, firstn_all. cbn [firstn]. apply app_nil_r.
+  - rewrite skipn_app, Nat.sub_diag, skipn_all. reflexivity.
 Qed.
 
 (* a private key: the public encodings are those of d*G (compressed and uncompressed forms of one point) *)
@@ -335,20 +352,28 @@ Theorem private_public_forms_pf : forall wide d c k x y,
   parse_point (lib_public_uncompressed k) = secp_pub d.
 Proof.
   intros wide d c k x y H Hpub Hc. pose proof (on_curve_inv x y Hc) as [Hx [Hy _]].
-  assert (H256 : p < 256 ^ Z.of_nat 32) by reflexivity.
+  assert (H256 : p < 256 ^ Z.of_nat 32) by (vm_compute; reflexivity).
   unfold lib_mk_private in H.
   destruct (true && negb ((0 <? d) && (d <? secp256k1_n)) && negb (wide && negb (d mod secp256k1_n =? 0)));
     [discriminate|].
-  unfold lib_pub_of_secret in H. rewrite Hpub in H. inversion H; subst; clear H.
-  unfold lib_public_compressed, lib_public_uncompressed, lib_public_point, lib_x, lib_y.
+  unfold lib_pub_of_secret in H. rewrite Hpub in H.
+  apply (f_equal (fun r => match r with ImpOk k' => k' | _ => k end)) in H. cbv beta iota in H. subst k.
+  unfold lib_public_compressed, lib_public_uncompressed, lib_public_point, lib_y, lib_x.
   cbn [k_pubc k_pubu k_xb k_yb]. rewrite Hpub.
   rewrite !of_be_be_bytes_small by lia.
   split; [reflexivity|]. split; [reflexivity|]. split; [reflexivity|].
   unfold parse_point. change (bz x04 =? 2) with false. change (bz x04 =? 3) with false. change (bz x04 =? 4) with true.
   cbn [orb]. rewrite app_length, !be_bytes_length. cbn [Nat.add Nat.eqb].
-  rewrite firstn_app, be_bytes_length, Nat.sub_diag. cbn [firstn]. rewrite app_nil_r.
-  rewrite firstn_all2 by (rewrite be_bytes_length; lia).
-  rewrite skipn_app, be_bytes_length, Nat.sub_diag. cbn [skipn].
-  rewrite skipn_all2 by (rewrite be_bytes_length; lia). cbn [app].
+  destruct (split_32 (be_bytes 32 x) (be_bytes 32 y) (be_bytes_length 32 x)) as [F S]. rewrite F, S.
   rewrite !of_be_be_bytes_small by lia. rewrite Hc. reflexivity.
+Qed.
+
+(* the 128 character hexadecimal form: any 64 bytes that are not a multiple of n are accepted as they are *)
+Theorem wide_accepted_pf : forall b c,
+  length b = 64%nat -> of_be b mod secp256k1_n <> 0 ->
+  exists k, lib_key_import (KHexStr b) c true = ImpOk k /\ k_private k = true /\ k_secret k = of_be b.
+Proof.
+  intros b c Hl Hm. unfold lib_key_import, lib_key_import_gen. rewrite Hl. cbn [Nat.eqb andb].
+  unfold lib_mk_private. apply Z.eqb_neq in Hm. rewrite Hm. cbn [negb andb]. rewrite andb_false_r.
+  destruct (lib_pub_of_secret (of_be b)) as [x y]. eexists. split; [reflexivity|]. split; reflexivity.
 Qed.
